@@ -192,7 +192,9 @@ def run(ctx, chk):
             if t == T["CBOR_TYPE_MAP"]:
                 okm = okm and all(len(cps) >= 2 and e.args[1] == cps[2 * i].res and e.args[2] == cps[2 * i + 1].res for i, e in enumerate(ins))
                 # key read at +0, value at +8 of the same pair
-                for i in range(len(ins)):
+                if len(cps) < 2 * len(ins):
+                    okm = False    # an entry whose key and value are not both the result of their own copy
+                for i in range(len(ins) if okm else 0):
                     ka, va = cps[2 * i].args[0], cps[2 * i + 1].args[0]
                     okm = okm and ka[0] == "ld" and va[0] == "ld" and ptr_key(("p", ka[1], ka[2]) if ka[2] else ka[1])[0] == ptr_key(("p", va[1], va[2]) if va[2] else va[1])[0] \
                         and va[2] - ka[2] == 8
